@@ -428,6 +428,7 @@ func runC08(c *Ctx, r *Report) {
 	c10R5(c, r, "C08.R9") // the shared round-robin position advances by one atomic read-modify-write per probe
 	c08SharedAppend(c, r, "C08.R14")
 	c08WrapStorage(c, r, "C08.R15")
+	c08PoolReset(c, r, "C08.R16")
 	c08QuicAddr(c, r, "C08.R11")
 	c09R6(c, r, "C08.R12")     // a UDP client never reads another client's datagram: queued datagram records do not alias
 	c17Handle(c, r, "C08.R10") // per-connection state of a handler (the throttle's own limiter) is built per connection, only the handler-wide limiter is shared
